@@ -917,7 +917,9 @@ func init() {
 			"ground truth for 'the compiler rejects the workspace' is a direct protocompile run (harness/ref); for 'format found a difference' the harness' own byte comparison of every source with `buf format -o`",
 			"plugins are not exercised (the ' (plugin)' message suffix is modelled in the comparison but no plugin runs)",
 		},
-		Cases: func(tier string) int { return c20WorkspaceCases(tier) + c20OperationalCases(tier) + c20FileRefCases(tier) + c20FormatWriteCases(tier) },
+		Cases: func(tier string) int {
+			return c20WorkspaceCases(tier) + c20OperationalCases(tier) + c20FileRefCases(tier) + c20FormatWriteCases(tier)
+		},
 		Run:   c20Run,
 		Needs: []string{"buf"},
 		Required: []string{"build_nonempty", "build_empty", "lint_nonempty", "lint_empty", "breaking_nonempty", "breaking_empty", "format_diff_cases", "format_nodiff_cases", "format_crlf_cases", "fileref_annotations", "format_write_runs",
